@@ -1550,9 +1550,37 @@ fn is_option_named(prop: &PropOrSpread, name: &str) -> bool {
     match key {
         PropName::Ident(ident) => ident.sym == name,
         PropName::Str(str) => str.value == name,
-        PropName::Computed(ComputedPropName { expr, .. }) => {
-            matches!(&**expr, Expr::Lit(Lit::Str(str)) if str.value == name)
-        }
+        PropName::Computed(ComputedPropName { expr, .. }) => match &**expr {
+            Expr::Lit(Lit::Str(str)) => str.value == name,
+            // [`name`]
+            Expr::Tpl(Tpl { exprs, quasis, .. }) if exprs.is_empty() => {
+                matches!(quasis.as_slice(), [quasi] if quasi.cooked.as_deref() == Some(name))
+            }
+            _ => false,
+        },
+        _ => false,
+    }
+}
+
+/// An entry of the options object that may define any option at run time:
+/// a spread, or a key that is computed from something other than a literal.
+fn may_define_any_option(prop: &PropOrSpread) -> bool {
+    let PropOrSpread::Prop(prop) = prop else {
+        return true;
+    };
+    let key = match &**prop {
+        Prop::KeyValue(KeyValueProp { key, .. })
+        | Prop::Getter(GetterProp { key, .. })
+        | Prop::Setter(SetterProp { key, .. })
+        | Prop::Method(MethodProp { key, .. }) => key,
+        _ => return false,
+    };
+    match key {
+        PropName::Computed(ComputedPropName { expr, .. }) => match &**expr {
+            Expr::Lit(..) => false,
+            Expr::Tpl(Tpl { exprs, .. }) => !exprs.is_empty(),
+            _ => true,
+        },
         _ => false,
     }
 }
@@ -1583,8 +1611,9 @@ fn inject_define_component_option(call: &mut CallExpr, name: &'static str, value
                 key: PropName::Ident(quote_ident!(name)),
                 value: Box::new(value),
             })));
-            // options the user spreads into the object must win over the injected one
-            match object.props.iter().position(|prop| prop.is_spread()) {
+            // options the user spreads into the object (or defines under a key computed at run time)
+            // must win over the injected one
+            match object.props.iter().position(may_define_any_option) {
                 Some(index) => object.props.insert(index, prop),
                 None => object.props.push(prop),
             }
